@@ -144,6 +144,23 @@ def failing_calls(rng, cs, texts):
             reset_charset()
             return ('leak-after-failed-load' if outcome != 'ok' else 'leak-after-load',
                     'after load(%s, charset=%s) -> %s the process charset is %r' % (label, cs, outcome, now)), n
+    # a charset that cannot be used at all: an unknown name, an empty name, not a string; loading and saving (files with and without text)
+    notext = b'MThd\x00\x00\x00\x06\x00\x01\x00\x01\x01\xe0MTrk\x00\x00\x00\x08\x00\x90\x40\x40\x00\xff\x2f\x00'
+    for badcs in ('utf8x', '', 'latin-one', None, 7):
+        for label, call in (('load(saved file', lambda: mido.MidiFile(file=io.BytesIO(bs), charset=badcs)),
+                            ('load(file without text', lambda: mido.MidiFile(file=io.BytesIO(notext), charset=badcs)),
+                            ('save(texts', lambda: mkfile(badcs, texts).save(file=io.BytesIO())),
+                            ('save(no text', lambda: mkfile(badcs, []).save(file=io.BytesIO()))):
+            n += 1
+            try:
+                call()
+                outcome = 'ok'
+            except Exception as e:  # noqa: BLE001
+                outcome = type(e).__name__
+            if not elsewhere_ok():
+                now = charset_now()
+                reset_charset()
+                return ('leak-after-bad-charset', 'after %s, charset=%r) -> %s the process charset is %r' % (label, badcs, outcome, now)), n
     # failing saves
     for k in range(0, 2 * len(texts), max(1, len(texts) // 3 or 1)):
         n += 1
@@ -227,7 +244,7 @@ def run(out):
     out.rule = ('for each of %d charsets (latin1, utf-8, cp1252, shift_jis, utf-16, ascii, cp437, utf-32, koi8-r): files with 1-4 text-carrying meta messages '
                 '(all 8 text types) of texts encodable in it: save, find the encoded text in the bytes, load back; and every place a call can fail: load of the '
                 'file truncated at EVERY byte offset, corrupted bytes, undecodable text, save with a non-integer time in the n-th message, unencodable text; '
-                'after every call the process-wide charset must be latin1 again (observed through MetaMessage(\'text\', text=\'\\u00e9\').bytes()). '
+                'loads and saves under unusable charsets (unknown or empty name, not a string); after every call the process-wide charset must be latin1 again (observed through MetaMessage(\'text\', text=\'\\u00e9\').bytes()). '
                 'Non-trivial: every call; distinct by (kind, charset, texts).' % len(CHARSETS))
     out.sample({'component': 'failing', 'charset': 'utf-8', 'what': 'load of a saved file truncated at each byte offset, then MetaMessage text bytes observed'})
     out.assumptions += ['codecs other than latin-1/ASCII are Python\'s (assumed to decode what they encode); the theorems are stated for any codec assignment',
